@@ -29,6 +29,11 @@ type ParserData struct {
 		index      int
 		textPos    int
 		openBlocks []CodeType
+		// 外层的循环状态: 函数体/计算值的代码是独立的一段，其中的 break/continue 不能指向外层循环
+		loopLayer     int
+		loopInfoLen   int
+		breakStack    []IntType
+		continueStack []IntType
 	}
 	// 最外层代码中每条指令写入时解析器所处的文本位置(与 code 下标对应)。解析结束后，
 	// 位置超出最终匹配位置的尾部指令来自被放弃的备选分支，需要丢弃，见 dropAbandonedTail
@@ -420,14 +425,22 @@ func (p *ParserData) AddAttrSet(objName string, attr string, isRaw bool) {
 
 func (p *ParserData) CodePush(textPos int) {
 	p.codeStack = append(p.codeStack, struct {
-		code       []ByteCode
-		index      int
-		textPos    int
-		openBlocks []CodeType
-	}{code: p.code, index: p.codeIndex, textPos: textPos, openBlocks: p.openBlocks})
+		code          []ByteCode
+		index         int
+		textPos       int
+		openBlocks    []CodeType
+		loopLayer     int
+		loopInfoLen   int
+		breakStack    []IntType
+		continueStack []IntType
+	}{code: p.code, index: p.codeIndex, textPos: textPos, openBlocks: p.openBlocks,
+		loopLayer: p.loopLayer, loopInfoLen: len(p.loopInfo), breakStack: p.breakStack, continueStack: p.continueStack})
 	p.code = make([]ByteCode, 256)
 	p.codeIndex = 0
 	p.openBlocks = nil
+	p.loopLayer = 0
+	p.breakStack = nil
+	p.continueStack = nil
 }
 
 func (p *ParserData) CodePop() ([]ByteCode, int, int) {
@@ -439,5 +452,9 @@ func (p *ParserData) CodePop() ([]ByteCode, int, int) {
 	p.code = info.code
 	p.codeIndex = info.index
 	p.openBlocks = info.openBlocks
+	p.loopLayer = info.loopLayer
+	p.loopInfo = p.loopInfo[:info.loopInfoLen]
+	p.breakStack = info.breakStack
+	p.continueStack = info.continueStack
 	return lastCode, lastIndex, info.textPos
 }
